@@ -20,3 +20,17 @@ open Model.C13
 #print axioms append_once
 #print axioms lockFacts_guarded
 #print axioms no_acquire_while_holding
+open Model.C13 in
+#print axioms shape_append
+open Model.C13 in
+#print axioms shape_join
+open Model.C13 in
+#print axioms shape_setIdentity
+open Model.C13 in
+#print axioms shape_readers
+open Model.C13 in
+#print axioms shape_toMultihash
+open Model.C13 in
+#print axioms shape_iterator
+open Model.C13 in
+#print axioms iterator_sends_after_unlock
